@@ -195,6 +195,13 @@ def identity_perm(ctx: Ctx, tw: FuncInfo) -> dict:
                 a = s.d['field'].single_atom()
                 if isinstance(a, tuple) and a[0] == 'iter':
                     ident = True
+            # self.perm = np.arange(n[, dtype=int]): 0, 1, ..., n-1
+            if s.d['tkind'] == 'attr' and s.d['field'] == 'perm' and isinstance(s.d['value'], RF):
+                va = s.d['value'].single_atom()
+                if isinstance(va, tuple) and va and va[0] == 'call' and isinstance(va[1], str) and \
+                        va[1].split('.')[-1] == 'arange' and len([x for x in va[2] if not (isinstance(x, tuple) and
+                                                                                          len(x) == 2 and x[0] == 'dtype')]) == 1:
+                    ident = True
             # perm[:] = np.arange(n): the whole vector is 0, 1, ..., n-1
             if s.d['tkind'] == 'sub' and isinstance(s.d['value'], RF):
                 fk = key_of(s.d['field']) if isinstance(s.d['field'], RF) else s.d['field']
